@@ -4,7 +4,10 @@ PROP = {
   "saml2_tophat.sigver:CryptoBackendXmlSec1._run_xmlsec",
   "saml2_tophat.sigver:CryptoBackendXmlSec1.validate_signature",
   "saml2_tophat.sigver:SecurityContext.verify_signature",
-  "saml2_tophat.sigver:SecurityContext._check_signature"
+  "saml2_tophat.sigver:SecurityContext._check_signature",
+  "saml2_tophat.sigver:CryptoBackendXmlSec1.encrypt_assertion",
+  "saml2_tophat.sigver:CryptoBackendXmlSec1.sign_statement",
+  "saml2_tophat.sigver:SecurityContext.decrypt_keys"
  ],
  "level": "proof",
  "id": "C20"
